@@ -39,10 +39,14 @@ pub fn reference_conn(n: usize, bonds: &[(usize, usize, f64)]) -> Conn {
     for j in 0..n { for i in 0..n { for k in (i + 1)..n {
         if i != j && k != j && adj[i][j] && adj[j][k] { c.angles.push([i, j, k]); }
     } } }
-    for i in 0..n { for j in 0..n { for k in 0..n { for l in (i + 1)..n {
-        let distinct = i != j && i != k && j != k && j != l && k != l;
-        if distinct && adj[i][j] && adj[j][k] && adj[k][l] { c.propers.push([i, j, k, l]); }
+    // every bonded path i-j-k-l over four distinct atoms, each once (i < l), in lexicographic order — enumerated over the
+    // neighbours of the central bond so that graphs of a few hundred atoms stay cheap
+    let nbrs: Vec<Vec<usize>> = (0..n).map(|a| (0..n).filter(|b| adj[a][*b]).collect()).collect();
+    for j in 0..n { for &k in nbrs[j].iter() { for &i in nbrs[j].iter() { for &l in nbrs[k].iter() {
+        let distinct = i != j && i != k && j != k && j != l && k != l && i != l;
+        if distinct && i < l { c.propers.push([i, j, k, l]); }
     } } } }
+    c.propers.sort();
     for cidx in 0..n {
         let nb: Vec<usize> = (0..n).filter(|x| adj[cidx][*x]).collect();
         if nb.len() == 3 { c.impropers.push([cidx, nb[0], nb[1], nb[2]]); }
